@@ -768,10 +768,28 @@ func (v *Verifier) resolveGlobalName(fn *ssa.Function, name string, env *Env) *C
 	if pk == nil {
 		return nil
 	}
+	addr := strings.HasPrefix(name, "&")
+	name = strings.TrimPrefix(name, "&")
+	if i := strings.Index(name, "."); i > 0 {
+		// qualified: a package the function's package imports (by its short name)
+		var q *ssa.Package
+		for _, imp := range pk.Pkg.Imports() {
+			if shortPkg(imp.Path()) == name[:i] || imp.Name() == name[:i] {
+				q = v.prog.Prog.Package(imp)
+			}
+		}
+		if q == nil {
+			return nil
+		}
+		pk, name = q, name[i+1:]
+	}
 	if m := pk.Members[name]; m != nil {
 		switch m := m.(type) {
 		case *ssa.Global:
 			ref := v.globalRef(m)
+			if addr {
+				return cvOfVal(&Val{K: VPtr, T: m.Type(), Ref: ref, Off: IntLit(0)})
+			}
 			t := m.Type().(*types.Pointer).Elem()
 			// arrays are exposed as pointers so that indexing reads memory lazily
 			if _, isArr := t.Underlying().(*types.Array); isArr {
@@ -1413,7 +1431,7 @@ func (fr *Frame) resolveLocal(name string, at *ssa.BasicBlock, env map[ssa.Value
 						}
 						return cvOfVal(canonVal(v.El[comp]))
 					}
-					if v.K == VTuple {
+					if _, multi := cl.Type().(*types.Tuple); multi && v.K == VTuple {
 						return nil
 					}
 					return cvOfVal(canonVal(v))
